@@ -1324,6 +1324,26 @@ Proof. split; [apply empty_state_inv|]. unfold HInv; cbn. intros h ip. split; [d
 Theorem full_inv_reachable c h : hist_ok h -> FullInv c (run c h empty_state).
 Proof. intros Hh. apply run_full; auto. apply empty_state_full. Qed.
 
+(** * Configuration: Validate, set_config *)
+
+Lemma valid_conf_b_spec c : valid_conf_b c = true <-> valid_conf c.
+Proof.
+  unfold valid_conf_b, valid_conf. rewrite !andb_true_iff, N.ltb_lt, negb_true_iff. tauto.
+Qed.
+
+(** What the file has to satisfy does not depend on the pool. *)
+Lemma DiskInv_conf c c' d : c_gw c' = c_gw c -> DiskInv c d -> DiskInv c' d.
+Proof. intros E [A B G O]. split; auto. rewrite E. exact G. Qed.
+
+(** A set_config that keeps the gateway (any pool, any subnet, any lease
+    time) leads to a state that satisfies the invariant of the new
+    configuration: leases the new configuration cannot hold are dropped. *)
+Theorem set_config_full c c' s : c_gw c' = c_gw c -> Inv c s -> FullInv c' (set_config c' s).
+Proof. intros E [_ _ K]. apply load_full. eapply DiskInv_conf; eauto. Qed.
+
+Lemma set_config_same c s : set_config c s = restart c s.
+Proof. reflexivity. Qed.
+
 (** * Corollaries *)
 
 Lemma NoDup_map_inj {A B} (f : A -> B) (L : list A) a b :
